@@ -80,7 +80,7 @@ def rule_level_range(ctx, rule, fi, obj="self", attr="limit_level", exceptions=N
         else:
             continue
         n += 1
-        want = A(f"{obj}.{attr}") + 1
+        want = expr_ratio(ast.parse(f"{obj}.{attr} + 1", mode="eval").body, env)
         t = norm(it)
         if t in exceptions:
             ctx.ok(rule, fi.site, f"loop {t}: frozen exception — {exceptions[t]}", key=t)
